@@ -48,7 +48,91 @@ Definition render3 (xs : sstmt) : str := render_stmt_with render_unit xs.
 Definition ulen (u : sunit) : nat := length (render_unit u).
 Definition slen (xs : sstmt) : nat := length (render3 xs).
 
-(* well-formedness: letter names, digit runs, and `>` never directly after a group *)
+(* ================================================================ names *)
+(* a written name: a letter, then letters, ASCII digits, `-`, `_`, `:` *)
+Local Open Scope N_scope.
+Definition namec (c : char) : bool :=
+  is_alpha c || in_range c_0 c_9 c || (c =? c_dash) || (c =? c_under) || (c =? c_colon).
+Local Close Scope N_scope.
+Definition wname_ok (n : str) : Prop :=
+  match n with [] => False | c :: r => is_alpha c = true /\ Forall (fun c => namec c = true) r end.
+Definition wide_name (n : str) : bool :=
+  match n with [] => false | c :: r => is_alpha c && forallb namec r end.
+
+Lemma wide_name_ok n : wide_name n = true -> wname_ok n.
+Proof.
+  destruct n as [|c r]; [discriminate|]. cbn [wide_name wname_ok]. intros H. apply andb_prop in H. destruct H as [H1 H2].
+  split; [exact H1|]. apply Forall_forall. apply forallb_forall. exact H2.
+Qed.
+
+Local Open Scope N_scope.
+Lemma namec_range c : namec c = true ->
+  (65 <= c <= 90) \/ (97 <= c <= 122) \/ (48 <= c <= 57) \/ c = 45 \/ c = 95 \/ c = 58.
+Proof.
+  unfold namec. intros H.
+  apply orb_true_iff in H. destruct H as [H|H5]; [|apply N.eqb_eq in H5; unfold c_colon in H5; lia].
+  apply orb_true_iff in H. destruct H as [H|H4]; [|apply N.eqb_eq in H4; unfold c_under in H4; lia].
+  apply orb_true_iff in H. destruct H as [H|H3]; [|apply N.eqb_eq in H3; unfold c_dash in H3; lia].
+  apply orb_true_iff in H. destruct H as [H1|H2].
+  - apply alpha_range in H1. lia.
+  - unfold in_range, c_0, c_9 in H2. apply andb_true_iff in H2. destruct H2 as [Ha Hb].
+    apply N.leb_le in Ha. apply N.leb_le in Hb. lia.
+Qed.
+
+Lemma alpha_namec c : is_alpha c = true -> namec c = true.
+Proof. intros H. unfold namec. rewrite H. reflexivity. Qed.
+
+Lemma namec_not c k : namec c = true ->
+  (k < 45 \/ 45 < k < 48 \/ 58 < k < 65 \/ 90 < k < 95 \/ 95 < k < 97 \/ 122 < k) -> (c =? k) = false.
+Proof. intros H Hk. apply namec_range in H. apply N.eqb_neq. lia. Qed.
+
+Lemma namec_operator c : namec c = true -> operator_type c = None.
+Proof.
+  intros H. apply namec_range in H. unfold operator_type, markup_operator_types. cbn [assoc_N].
+  repeat match goal with
+         | |- context [c =? ?k] => destruct (c =? k) eqn:E; [apply N.eqb_eq in E; lia|]; clear E
+         end.
+  reflexivity.
+Qed.
+
+Lemma ascii_digit_number c : 48 <= c <= 57 -> is_number c = true.
+Proof.
+  intros H. unfold is_number. apply existsb_exists. exists 48. split.
+  - unfold decimal_zeros. left. reflexivity.
+  - apply andb_true_iff. split; [apply N.leb_le|apply N.ltb_lt]; lia.
+Qed.
+
+Lemma namec_element_name c : namec c = true -> is_element_name c = true.
+Proof.
+  intros H. pose proof (namec_range c H) as R. unfold is_element_name, is_alpha_numeric_word, is_alpha_word.
+  destruct R as [R|[R|[R|[R|[R|R]]]]].
+  - assert (Ha : is_alpha c = true).
+    { unfold is_alpha, in_range, c_a, c_z, c_A, c_Z. apply orb_true_iff. right. apply andb_true_iff. split; apply N.leb_le; lia. }
+    rewrite Ha. rewrite !orb_true_r. reflexivity.
+  - assert (Ha : is_alpha c = true).
+    { unfold is_alpha, in_range, c_a, c_z, c_A, c_Z. apply orb_true_iff. left. apply andb_true_iff. split; apply N.leb_le; lia. }
+    rewrite Ha. rewrite !orb_true_r. reflexivity.
+  - rewrite (ascii_digit_number c R). reflexivity.
+  - subst c. rewrite !orb_true_r. reflexivity.
+  - subst c. reflexivity.
+  - subst c. rewrite !orb_true_r. reflexivity.
+Qed.
+
+Lemma namec_not_space c : namec c = true -> is_space c = false.
+Proof.
+  intros H. unfold is_space, is_white_space, c_space, c_tab, c_nbsp, c_nl, c_cr.
+  rewrite !(namec_not c) by (assumption || lia). reflexivity.
+Qed.
+Lemma namec_not_quote c : namec c = true -> is_quote c = false.
+Proof. intros H. unfold is_quote, c_dquote, c_squote. rewrite !(namec_not c) by (assumption || lia). reflexivity. Qed.
+Lemma namec_not_bracket c : namec c = true -> bracket_type c = None.
+Proof.
+  intros H. unfold bracket_type, c_lparen, c_rparen, c_lbrack, c_rbrack, c_lbrace, c_rbrace.
+  rewrite !(namec_not c) by (assumption || lia). reflexivity.
+Qed.
+Local Close Scope N_scope.
+
+(* well-formedness: wide names, digit runs, and `>` never directly after a group *)
 Definition is_ug (u : sunit) : bool := match u with UG _ _ => true | UE _ _ => false end.
 Definition rep_okP (r : option str) : Prop := match r with Some ds => digits_ok ds | None => True end.
 Definition swf_with (F : sunit -> Prop) :=
@@ -59,7 +143,7 @@ Definition swf_with (F : sunit -> Prop) :=
     end.
 Fixpoint swf_unit (u : sunit) : Prop :=
   match u with
-  | UE n r => name_ok n /\ rep_okP r
+  | UE n r => wname_ok n /\ rep_okP r
   | UG body r => swf_with swf_unit body /\ rep_okP r
   end.
 Definition swf (xs : sstmt) : Prop := swf_with swf_unit xs.
@@ -83,30 +167,30 @@ Lemma stopS_stop4 rest : stopS rest -> stop4 rest.
 Proof. destruct rest; cbn; auto. Qed.
 
 Lemma lit_name3 : forall name rest prev,
-  Forall (fun c => is_alpha c = true) name -> stop3 rest ->
+  Forall (fun c => namec c = true) name -> stop3 rest ->
   lit None 0 0 0 prev false (name ++ rest) = (name, length name, 0%Z).
 Proof.
   induction name as [|c name IH]; intros rest prev Hn Hs.
   - cbn [app length]. destruct rest as [|c r]; [reflexivity|].
     cbn [stop3] in Hs. destruct Hs as [[-> | [-> | ->]] | [-> | ->]]; reflexivity.
   - inversion Hn as [|x l Hc Hn']; subst. cbn [app length lit].
-    rewrite (alpha_not c c_bslash Hc) by (unfold c_bslash; lia).
-    rewrite (alpha_not c c_slash Hc) by (unfold c_slash; lia).
-    rewrite (alpha_not c c_dollar Hc) by (unfold c_dollar; lia).
-    cbn [andb orb]. unfold is_allowed_operator at 1. rewrite (alpha_operator c Hc).
-    cbn [truthy Z.eqb negb]. rewrite (alpha_element_name c Hc). cbn [negb andb].
-    unfold is_allowed_space, is_allowed_repeater. rewrite (alpha_not_space c Hc).
-    rewrite (alpha_not c c_star Hc) by (unfold c_star; lia).
-    rewrite (alpha_not_quote c Hc), (alpha_not_bracket c Hc). cbn [andb orb].
+    rewrite (namec_not c c_bslash Hc) by (unfold c_bslash; lia).
+    rewrite (namec_not c c_slash Hc) by (unfold c_slash; lia).
+    rewrite (namec_not c c_dollar Hc) by (unfold c_dollar; lia).
+    cbn [andb orb]. unfold is_allowed_operator at 1. rewrite (namec_operator c Hc).
+    cbn [truthy Z.eqb negb]. rewrite (namec_element_name c Hc). cbn [negb andb].
+    unfold is_allowed_space, is_allowed_repeater. rewrite (namec_not_space c Hc).
+    rewrite (namec_not c c_star Hc) by (unfold c_star; lia).
+    rewrite (namec_not_quote c Hc), (namec_not_bracket c Hc). cbn [andb orb].
     rewrite (IH rest (Some c) Hn' Hs). reflexivity.
 Qed.
 
 Lemma consume_name3 g name rest prev :
-  name_ok name -> stop3 rest ->
+  wname_ok name -> stop3 rest ->
   consume (ctx_g g) prev (name ++ rest) = (CTok (TLiteral name) (length name), ctx_g g).
 Proof.
-  intros [Hne Hn] Hs. destruct name as [|c name]; [contradiction|].
-  inversion Hn as [|x l Hc Hn']; subst.
+  intros Hw Hs. destruct name as [|c name]; [contradiction|]. cbn [wname_ok] in Hw. destruct Hw as [Hc Hn'].
+  assert (Hn : Forall (fun c => namec c = true) (c :: name)) by (constructor; [apply alpha_namec, Hc|exact Hn']).
   unfold consume, ctx_g. cbn [cexpr cattr cquote cgroup].
   assert (Hf : field (mkCtx g 0 0 None) ((c :: name) ++ rest) = CNone) by reflexivity.
   rewrite Hf. cbn [orelse].
@@ -228,8 +312,13 @@ Proof.
 Qed.
 
 (* ---------------------------------------------------------------- one element *)
+Definition item_ok3 (it : ritem) : Prop :=
+  wname_ok (fst it) /\ match snd it with Some ds => digits_ok ds | None => True end.
+Lemma wname_nonempty n : wname_ok n -> n <> [].
+Proof. destruct n; [contradiction|discriminate]. Qed.
+
 Lemma item_run3 g it rest prev pos :
-  item_ok it -> stop4 rest ->
+  item_ok3 it -> stop4 rest ->
   exists prev',
   toks 0 (ctx_g g) prev pos (fst it ++ rep_text (snd it) ++ rest) =
     match toks 0 (ctx_g g) prev' (pos + item_len it) rest with
@@ -237,16 +326,16 @@ Lemma item_run3 g it rest prev pos :
     | TErr p => TErr p
     end.
 Proof.
-  destruct it as [n [ds|]]; unfold item_ok, item_len, item_toks; cbn [fst snd rep_text rep_toks_at]; intros [Hn Hd] Hs.
+  destruct it as [n [ds|]]; unfold item_ok3, item_len, item_toks; cbn [fst snd rep_text rep_toks_at]; intros [Hn Hd] Hs.
   - exists (lastc (c_star :: ds)).
-    rewrite (toks_step n _ (ctx_g g) prev pos (TLiteral n) (ctx_g g)); [|apply Hn|].
+    rewrite (toks_step n _ (ctx_g g) prev pos (TLiteral n) (ctx_g g)); [|apply wname_nonempty, Hn|].
     + rewrite (toks_step (c_star :: ds) rest (ctx_g g) (lastc n) (pos + length n) (TRepeater (count_of ds) 0 false) (ctx_g g));
         [|discriminate|cbn [app length]; apply consume_rep3; assumption].
       cbn [length]. rewrite Nat.add_assoc.
       destruct (toks 0 (ctx_g g) (lastc (c_star :: ds)) (pos + length n + S (length ds)) rest); reflexivity.
     + apply consume_name3; [exact Hn|]. cbn [app stop3]. right. left. reflexivity.
   - exists (lastc n). cbn [app length]. rewrite Nat.add_0_r.
-    rewrite (toks_step n rest (ctx_g g) prev pos (TLiteral n) (ctx_g g)); [|apply Hn|apply consume_name3; [exact Hn|apply stop4_stop3, Hs]].
+    rewrite (toks_step n rest (ctx_g g) prev pos (TLiteral n) (ctx_g g)); [|apply wname_nonempty, Hn|apply consume_name3; [exact Hn|apply stop4_stop3, Hs]].
     destruct (toks 0 (ctx_g g) (lastc n) (pos + length n) rest); reflexivity.
 Qed.
 
